@@ -156,6 +156,14 @@ func (rl *Shell) init() {
 	// Some accept-* commands must fetch a specific
 	// line outright, or keep the accepted one.
 	history.Init(rl.History)
+
+	// A line kept or fetched for this call has the cursor at its end:
+	// in Vim command mode the cursor is on a character.
+	switch rl.Keymap.Main() {
+	case keymap.ViCommand, keymap.ViMove, keymap.Vi:
+		rl.cursor.CheckCommand()
+	}
+
 	rl.History.Save()
 
 	// Reset/initialize user interface components.
